@@ -135,7 +135,11 @@ def h_roundtrip(ctx, skeleton, save_calc, n=2, args=None, edit=None, post_edit=N
     if old_version:
         js_in["efootprint_version"] = "9.1.4"
         js_in["Hardware"] = js_in.pop("Device")
-    class_obj_dict, flat = json_to_system(js_in)
+    try:
+        class_obj_dict, flat = json_to_system(js_in)
+    except Exception as e:  # noqa
+        ctx.require(False, "the exported file can be loaded back", f"{type(e).__name__}: {str(e)[:160]}")
+        return
     lab = "loaded"
     ctx.require(set(flat.keys()) == {o.id for o in in_system.values()}, f"{lab}: exactly the objects of the system are restored",
                 str(sorted(set(flat.keys()) ^ {o.id for o in in_system.values()}))[:200])
@@ -144,7 +148,11 @@ def h_roundtrip(ctx, skeleton, save_calc, n=2, args=None, edit=None, post_edit=N
     V.observe_system(ctx, loaded, "loaded.")
     V.compare_systems(ctx, loaded, in_system, "recomputed results of the loaded system = original")
     if not old_version:
-        js2 = system_to_json(loaded["system"], save_calculated_attributes=save_calc)
+        try:
+            js2 = system_to_json(loaded["system"], save_calculated_attributes=save_calc)
+        except Exception as e:  # noqa
+            ctx.require(False, "the loaded system can be exported again", f"{type(e).__name__}: {str(e)[:160]}")
+            return
         if save_calc:
             # calculated values carry fresh explanation ids only through object ids, which are preserved
             pass
@@ -165,6 +173,9 @@ def plan(tier, seed):
             p.append(("roundtrip", dict(skeleton=sk, save_calc=sc)))
     p.append(("roundtrip", dict(skeleton="T5", save_calc=False, args={"type1": "on-premise", "type2": "serverless", "fixed1": 5})))
     p.append(("roundtrip", dict(skeleton="T1", save_calc=False, old_version=True)))
+    p.append(("roundtrip", dict(skeleton="T1e", save_calc=False)))
+    p.append(("roundtrip", dict(skeleton="T1e", save_calc=True, post_edit=dict(k="list_op", obj="step_empty", attr="jobs", op="append", args=["job"]))))
+    p.append(("roundtrip", dict(skeleton="T9", save_calc=False, old_version=True)))
     p.append(("roundtrip", dict(skeleton="T1", save_calc=False, edit=num("job", "data_transferred"))))
     p.append(("roundtrip", dict(skeleton="T9", save_calc=True, edit=dict(k="link", obj="up", attr="network", target="net_alt"))))
     p.append(("roundtrip", dict(skeleton="T1", save_calc=False, post_edit=num("job", "data_stored"))))
